@@ -30,7 +30,7 @@ use crate::rng::{case_seed, hash_words, Rng};
 
 pub struct C20;
 
-pub const FUEL: u64 = 500_000;
+pub const FUEL: u64 = 600_000;
 
 pub struct Case {
     pub entry: String,
@@ -371,7 +371,9 @@ pub fn worker(seed: u64, n: u64) -> i32 {
                     let mut i = t;
                     while i < n {
                         let c = gen_case(case_seed(seed, "C20", i));
-                        v.push((i, run_case_outcome(&c)));
+                        // fingerprint of the input, so that a stale worker binary (different corpus) is noticed
+                        let fp = crate::rng::hash_str(&c.desc.to_string()) & 0xffff_ffff;
+                        v.push((i, format!("{:08x}|{}", fp, run_case_outcome(&c))));
                         i += threads;
                     }
                     v
@@ -454,12 +456,12 @@ impl Monitor for C20 {
         "C20"
     }
     fn rule(&self) -> String {
-        "case = one call into the public API with a well-formed input: the nine dedicated-processor analyses and the six ROS 2 analyses (inputs as in C06/C07 plus, on purpose, Never in every role incl. the task under analysis and whole workloads, ArrivalCurvePrefix directly inside request bounds, empty interferer sets, limits from 1 to 2000), arrival-model queries (number_arrivals at 0 and large deltas, steps_iter, clone_with_jitter, delta_min_iter), conversions and traces, eager extrapolation, cost-model queries incl. extrapolate(0), supply queries and fixed_point::search on all supply kinds, and the Poisson approximation. Each case is executed under catch_unwind with an iteration budget of 500,000 loop iterations (hook H3) by the checked build (debug assertions + overflow checks on) and by the release build (sub-process); violations: a panic or exhausted budget in either build, or different outcomes. Non-trivial = both builds returned a value; distinct = distinct (entry point, outcome, case).".to_string()
+        "case = one call into the public API with a well-formed input: the nine dedicated-processor analyses and the six ROS 2 analyses (inputs as in C06/C07 plus, on purpose, Never in every role incl. the task under analysis and whole workloads, ArrivalCurvePrefix directly inside request bounds, empty interferer sets, limits from 1 to 2000), arrival-model queries (number_arrivals at 0 and large deltas, steps_iter, clone_with_jitter, delta_min_iter), conversions and traces, eager extrapolation, cost-model queries incl. extrapolate(0), supply queries and fixed_point::search on all supply kinds, and the Poisson approximation. Each case is executed under catch_unwind with an iteration budget of 600,000 loop iterations (hook H3) by the checked build (debug assertions + overflow checks on) and by the release build (sub-process); violations: a panic or exhausted budget in either build, or different outcomes. Non-trivial = both builds returned a value; distinct = distinct (entry point, outcome, case).".to_string()
     }
     fn assumptions(&self) -> Vec<String> {
         vec![
             "well-formed as in DESIGN.md §2; inputs whose inferred delta-min prefix ends with distance 0 (unbounded process) and constructor preconditions documented by assertions are skipped".to_string(),
-            "termination is restated as 'returns within 500,000 instrumented loop iterations'; loops without a hook (iterator adaptors) are covered only by the wall-clock watchdog of the worker (inconclusive if it fires)".to_string(),
+            "termination is restated as 'returns within 600,000 instrumented loop iterations'; loops without a hook (iterator adaptors) are covered only by the wall-clock watchdog of the worker (inconclusive if it fires)".to_string(),
         ]
     }
     fn cases(&self, tier: Tier) -> u64 {
@@ -488,7 +490,15 @@ impl Monitor for C20 {
         let mine = run_case_outcome(&c);
         rep.count(&format!("cases[{}]", c.entry), 1);
         let theirs = match rel.get(&index) {
-            Some(t) => t.clone(),
+            Some(t) => {
+                let (fp, out) = t.split_once('|').unwrap_or(("", t));
+                let mine_fp = format!("{:08x}", crate::rng::hash_str(&c.desc.to_string()) & 0xffff_ffff);
+                if fp != mine_fp {
+                    rep.inconclusive = Some("release worker generated a different input for this case index (stale release binary?)".to_string());
+                    return;
+                }
+                out.to_string()
+            }
             None => {
                 // replay of a single case: no worker output for this index under another seed -> run nothing
                 rep.inconclusive = Some("no release outcome for this case index (replay needs the same seed and tier)".to_string());
@@ -515,13 +525,7 @@ impl Monitor for C20 {
                 }
             }
             Some(k) => rep.violation(
-                // one root cause (the pinned step at 0 of ArrivalCurvePrefix, see C11) shows at every analysis
-                // entry point; it is keyed on the input class, all other failures on the entry point as well
-                if c.input_class == "ArrivalCurvePrefix-inside-request-bound" {
-                    format!("C20 input={} kind={}", c.input_class, k)
-                } else {
-                    format!("C20 entry={} input={} kind={}", c.entry, c.input_class, k)
-                },
+                format!("C20 entry={} input={} kind={}", c.entry, c.input_class, k),
                 jobj! {"entry" => &c.entry, "input" => c.desc.clone(), "checked_outcome" => &mine, "release_outcome" => &theirs},
             ),
         }
